@@ -175,6 +175,19 @@ def run_construct(res, spec):
                     ncols = sum(o.features[ft].shape[1] for o in parts if ft in o.features)
                     if tuple(m.shape) != (sizes[ft.value], ncols):
                         res.violation(check, "composite-wrong-shape", sig=sig, spec=spec, observer=otype, feature_type=ft.value, shape=tuple(m.shape))
+                    # the derived views of the same matrices
+                    if tuple(comp.feature_dimensions[ft]) != tuple(m.shape) or len(comp.column_names[ft]) != m.shape[1]:
+                        res.violation(check, "composite-dimensions-or-column-names-differ-from-matrix", sig=sig, spec=spec, observer=otype, feature_type=ft.value, shape=tuple(m.shape), dimensions=tuple(comp.feature_dimensions[ft]), columns=list(comp.column_names[ft]))
+                    if sub is not None:
+                        continue  # (data frames once per observer type: they are slow to build)
+                    frame = comp.features_as_dataframe[ft]
+                    if list(frame.columns) != list(comp.column_names[ft]) or frame.to_numpy().tolist() != m.tolist():
+                        res.violation(check, "composite-dataframe-differs-from-matrix", sig=sig, spec=spec, observer=otype, feature_type=ft.value)
+                for o in parts:
+                    dims = o.feature_dimensions
+                    for ft, m in o.features.items():
+                        if tuple(dims[ft]) != tuple(m.shape) or o.feature_sizes[ft] != m.shape[1]:
+                            res.violation(check, "feature_dimensions-or-sizes-differ-from-matrix", sig=sig, spec=spec, observer=type(o).__name__, feature_type=ft.value, shape=tuple(m.shape))
             except Exception as exc:  # noqa: BLE001
                 res.violation(check, f"composite-constructor-raised:{type(exc).__name__}", sig=sig, spec=spec, observer=otype, feature_types=sub, error=repr(exc)[:300])
     res.add("states")
